@@ -124,9 +124,20 @@ func runOp(s *Session, a Args) (res Res) {
 		o.r["panic"] = false
 		o.r["hang"] = false
 		return o.r
-	case <-time.After(deadline):
+	case <-time.After(opDeadline(a.Str("op"))):
 		return Res{"panic": false, "hang": true}
 	}
+}
+
+// sweep ops make thousands of library calls, each under its own per-call deadline
+var longOps = map[string]bool{"ByteSweep": true, "RandomSweep": true, "CodeSweep": true, "PartialMethods": true, "ZeroMethods": true,
+	"Sweep": true, "Concurrent": true, "EncRange": true, "DecChunks": true, "TextEncChunks": true, "TextDecMutate": true, "TextGuard": true, "Tables": true}
+
+func opDeadline(op string) time.Duration {
+	if longOps[op] {
+		return 30 * time.Minute
+	}
+	return deadline
 }
 
 func main() {
